@@ -89,12 +89,28 @@ theorem manual_as_flag (R : Renamer σ) (r : Run σ) (dir : APath) (src dst : Pu
     resolveConflict R r dir src dst .manual (a :: as) = resolveConflict R r dir src dst s as := by
   cases a <;> simp [strategyOfAnswer] at h <;> subst h <;> rfl
 
-/-- a custom path is tried with override = False: it can fail, it cannot overwrite (see C01) -/
+/-- a custom path is subject to the containment check (F18) and is then tried with override = False:
+    it can fail, it cannot overwrite (see C01) and it cannot leave the input directory (see C06) -/
 theorem custom_path_guarded (R : Renamer σ) (r : Run σ) (dir : APath) (src dst p : PurePath) (as : List Answer) :
-    (resolveConflict R r dir src dst .manual (.custom p :: as)).1.calls = r.calls ++ [(dir, src, p, false)] := by
+    (contained (R.view r.st) dir p = .ok true →
+      (resolveConflict R r dir src dst .manual (.custom p :: as)).1.calls = r.calls ++ [(dir, src, p, false)]) ∧
+    (contained (R.view r.st) dir p ≠ .ok true →
+      (resolveConflict R r dir src dst .manual (.custom p :: as)).1 = r ∧
+      (resolveConflict R r dir src dst .manual (.custom p :: as)).2.2 ≠ none) := by
   simp only [resolveConflict]
   have := (call_calls R r dir src p false).1
-  split <;> (rename_i heq; rw [heq] at this; exact this)
+  constructor
+  · intro hc
+    rw [hc]
+    simp only
+    split <;> (rename_i heq; rw [heq] at this; exact this)
+  · intro hc
+    cases hcc : contained (R.view r.st) dir p with
+    | error e => cases e <;> simp
+    | ok b =>
+      cases b with
+      | false => simp
+      | true => exact absurd hcc hc
 
 /-- ignore never ends the run with the conflict status -/
 theorem ignore_never_stops (R : Renamer σ) (r : Run σ) (dir : APath) (src dst : PurePath) (as : List Answer) :
